@@ -77,7 +77,9 @@ def fault_plans(tier):
 NAME_SETS = [("old", "new", "other"),
              ('o"ld', "arch\\ive", "oth er"),
              ("été", "new\\", "{5}"),
-             ("x" * 1000 + '"' * 20, 'n\\"w', "OK")]
+             ("x" * 1000 + '"' * 20, 'n\\"w', "OK"),
+             # the TARGET name is at most 1024 octets raw and longer once escaped
+             ("src", "y" * 1023 + '"', "n" * 1000 + "\\" * 13)]
 
 
 def all_cases(tier):
